@@ -244,6 +244,10 @@ def run(check):
     check.guarded("ESCAPE", rule_escape)
     check.guarded("PRINT-ARGS", rule_print_args)
     check.guarded("PRINT-PATH", rule_print_path)
+    from . import c10 as _c10
+
+    # the embedded map must decode: the trailer's payload is the standard base64 of the final map
+    check.guarded("TRAILER", _c10.rule_trailer)
     from . import c16 as _c16
 
     check.guarded("COMPILER-SCOPE", _c16.rule_compiler_of_this_call)
